@@ -121,6 +121,20 @@ ROUND7 = {
 }
 
 
+# rules added in the eighth seeded round (DESIGN 11.24)
+ROUND8 = {
+    'C02': 'plain numbers stored in fields that admit enumeration members only',
+    'C08': 'TXT parser evaluated over RDATA with empty character-strings; string primitives convert with the codec they are given',
+    'C09': 'LDAP result code map evaluated against the enumeration',
+    'C10': 'no table over range(min(E), max(E)); no parsed sequence rebuilt from a mapping keyed by its items',
+    'C11': 'string primitives convert with the codec they are given; packed writes (value | sibling << k) need a bounded low part',
+    'C13': 'no shallow copy.copy',
+    'C14': 'hand written renderings evaluated on objects built with the constructor defaults',
+    'C16': 'hassh list read by evaluation',
+    'C18': 'name=value elements read by NameValuePair; no parsed sequence rebuilt from a mapping keyed by names as spelled',
+}
+
+
 def built():
     out = []
     for pid in sorted(P):
@@ -139,6 +153,8 @@ def main():
         tech, text = P[pid]
         if pid in ROUND7:
             tech = tech + '; ' + ROUND7[pid]
+        if pid in ROUND8:
+            tech = tech + '; ' + ROUND8[pid]
         checks.append({
             'property_id': pid,
             'quick_cmd': 'python3 -m sa.check %s --tier quick' % pid,
